@@ -85,6 +85,15 @@ add('C19', "spec/PacketCodec.tla transcribes the pack/unpack layers (run-length,
     "Trusted: TLC, the abstract-to-real byte mapping of the replay rig. Packet ids assumed unique; '__class__' dict keys are reserved.",
     "TLA+ specs PacketCodec (exhaustive strings) and PacketQueue (model-checked, state graph replayed on real files)", "5 C19, 3.7")
 
+add('C20', "spec/Sgr.tla models SGR parameter assembly, wrapping, the ANSI_RE stripping automaton, the attribute reader of Style.from_raw and the "
+    "colour gate over an abstract alphabet; TLC checks StripLaw, LenLaw, ParseLaw, OffLaw for every style of the domain (modifier sets x 16/bright/"
+    "256/RGB foregrounds and backgrounds) x every ESC-free text up to the bound x every gate combination, and prints the expected output of "
+    "every point; each is concretised (wide, combining, brace, colon, backslash, quote) and replayed: exact escaped output, descape/len, 11 format "
+    "specifications through Style(fmt=), apply(fmt=) and format(), colour-off output, repr/from_raw round trip, NO_COLOR/FORCE_COLOR/isatty gate, "
+    "and coloured-then-uncoloured error rendering.",
+    "Trusted: TLC; Python's format(text, spec) as the oracle for the formatted text; character classes stand for all of Unicode (exploration beyond them).",
+    "TLA+ spec Sgr checked by TLC (laws on the abstract alphabet) + every point replayed into Style", "5 C20, 3.7")
+
 import sys
 checks = [C[p] for p in props if p in C]
 na = [{"property_id": p, "reason": "check not built yet in this round (build in progress; DESIGN.md section 10 gives the order)"} for p in props if p not in C]
